@@ -57,11 +57,16 @@ fn field(text: &str, name: &str) -> Option<u64> {
 /// library default when the scenario leaves it unset).
 pub fn received_tp(scn: &Scenario, r: &Record, ep: u8) -> Option<Tp> {
     let peer_cfg = if ep == CLIENT { &scn.server } else { &scn.client };
+    // an edited block (tpe2e) overrides the configured connection window
+    let edited_max_data = match &scn.tp_edit {
+        Some((who, crate::scenario::TpEdit::Replace(0x04, v))) if *who != ep => { let mut p = 0; crate_tp_varint(v, &mut p) }
+        _ => None,
+    };
     for e in &r.events {
         if e.ep == ep {
             if let Ev::TransportParametersReceived { text } = &e.ev {
                 return Some(Tp {
-                    initial_max_data: peer_cfg.conn_window.unwrap_or(3_750_000),
+                    initial_max_data: edited_max_data.unwrap_or(peer_cfg.conn_window.unwrap_or(3_750_000)),
                     bidi_local: field(text, "initial_max_stream_data_bidi_local")?,
                     bidi_remote: field(text, "initial_max_stream_data_bidi_remote")?,
                     uni: field(text, "initial_max_stream_data_uni")?,
@@ -1332,6 +1337,53 @@ pub fn mon_adv(_scn: &Scenario, r: &Record, adv: &crate::families::Adv, out: &mu
     for a in r.app.iter().filter(|a| a.ep == victim) {
         if let App::Read { stream, ok: false, first_bad, .. } = &a.ev {
             v(out, "adv.offending_data_delivered", format!("{}: victim {} read bytes on stream {} that the honest script never wrote (offset {:?})", item.name, epn(victim), stream, first_bad));
+        }
+    }
+}
+
+fn crate_tp_varint(b: &[u8], p: &mut usize) -> Option<u64> {
+    let first = *b.get(*p)?;
+    let len = 1usize << (first >> 6);
+    let mut v = (first & 0x3f) as u64;
+    for i in 1..len {
+        v = (v << 8) | *b.get(*p + i)? as u64;
+    }
+    *p += len;
+    Some(v)
+}
+
+// ------------------------------------------------------------------------------------------
+// TPE2E (C14, end to end): edited transport-parameter blocks
+// ------------------------------------------------------------------------------------------
+
+pub fn mon_tpe2e(scn: &Scenario, r: &Record, out: &mut V) {
+    let Some((who, edit)) = &scn.tp_edit else { return };
+    let victim = other(*who);
+    let item = crate::families::tp_catalogue().into_iter().find(|i| &i.edit == edit);
+    let Some(item) = item else { return };
+    let closed = r.events.iter().find(|e| e.ep == victim && matches!(e.ev, Ev::Closed { .. }));
+    let victim_read_data = r.app.iter().any(|a| a.ep == victim && matches!(a.ev, App::Read { .. }));
+    if item.accept {
+        if let Some(Event { ev: Ev::Closed { transport_code: Some(code), .. }, .. }) = closed {
+            v(out, "tpe2e.valid_block_rejected", format!("{}: the {} closed with transport error {:#x} although RFC 9000 18.2 permits the block", item.name, epn(victim), code));
+        }
+    } else {
+        // TRANSPORT_PARAMETER_ERROR, or a generic code RFC 9000 11 permits in its place
+        const ALLOWED: [u64; 3] = [0x08, 0x0a, 0x01];
+        match closed {
+            Some(Event { ev: Ev::Closed { transport_code: Some(code), .. }, .. }) => {
+                if !ALLOWED.contains(code) {
+                    v(out, "tpe2e.wrong_error_code", format!("{}: the {} rejected the block with transport error {:#x} (allowed: TRANSPORT_PARAMETER_ERROR or a generic code)", item.name, epn(victim), code));
+                }
+            }
+            _ => {
+                if r.events.iter().any(|e| e.ep == victim && matches!(e.ev, Ev::TransportParametersReceived { .. })) || handshake_done(r, victim) {
+                    v(out, "tpe2e.invalid_block_accepted", format!("{}: the {} accepted a transport-parameter block that RFC 9000 7.4/18.2 declare invalid (handshake done: {})", item.name, epn(victim), handshake_done(r, victim)));
+                }
+            }
+        }
+        if victim_read_data {
+            v(out, "tpe2e.data_after_invalid_block", format!("{}: the {}'s application received stream data on a connection whose transport parameters are invalid", item.name, epn(victim)));
         }
     }
 }
